@@ -91,14 +91,16 @@ CHECKS = {
             "explicit-state BFS over session states (alive, registered, open connections, store) of the real server loop, every frame "
             "from every state; all frame sequences up to a length in two deliveries; pipelined runs",
             "The real main.enip_srv_tcp loop is driven frame by frame. BFS over canonical session states to closure: from every state "
-            "each of 26 frames (Register, List*, legacy, SendRRData with ok/refused reads and writes, attribute service, bundle, "
-            "wrapped fragmented read, unknown service/class/tag, small and large Forward Open, Forward Close, SendUnitData on the open "
+            "each of 30 frames (Register, List*, legacy, SendRRData with ok/refused reads and writes, succeeding and failing attribute "
+            "services, bundle, wrapped fragmented read, unknown service/class/instance/tag, small and large Forward Open, Forward Close, SendUnitData on the open "
             "connection, wrong/zero session handles, malformed CPF, unsupported command, Unregister; 4 sender contexts). Oracle per "
             "request: exactly one reply, same command/context/session, service|0x80 in the same framing, non-zero status for "
             "unsupported/unroutable, session ends only for the listed reasons. All sequences up to length 2 (3 thorough) are also "
             "written as ONE chunk before any reply is read: the reply stream must be byte-identical; runs of up to 64 pipelined "
-            "requests must be answered in order. Environment answers: randint 0 / duplicate, conn.send raising.",
-            "<= 2 open connections per session; contexts from 4 values; sequence length bound.",
+            "requests must be answered in order. Environment answers: randint 0 / duplicate, conn.send raising; a second session from the "
+            "same host; requests forwarded through a [UCMM] Route entry to a scripted other device that answers in time, late or never.",
+            "<= 2 open connections per session; contexts from 4 values; sequence length bound; the forwarded-to device is a scripted "
+            "transport answering with replies recorded from a real simulator.",
             "DESIGN.md §3 C06"),
     "C01": ("exploration",
             "four-way differential of cpppo parse/produce against an independent struct-only reference codec (mc/refcip.py) over a "
